@@ -31,7 +31,10 @@ ENTRY = dict(
                    "(the four *_repaired theorems; the later-calls one is partial: same argument graph, not yet same outcome). The sharing "
                    "classes F6, F10, F11, F19 are refuted on the model of the current behaviour. Closed under the global context. What "
                    "Qiskit's containers do inside copy/compose/append is an oracle (O-copy), monitored, not proved; the model is compared "
-                   "with the real id()-level alias relation on ~580 generated cases per quick run.",
+                   "with the real id()-level alias relation on ~585 generated cases per quick run. A targeted stream hands "
+                   "reconstruct_expectation_values SamplerV1 results held in plain mappings whose outcome keys are spelled per outcome as "
+                   "int / '0b..' / (blank-separated) bitstring / '0x..'; argument snapshots record result keys as spelled (type and text), "
+                   "so re-keying or re-typing a caller's result mapping counts as a modified argument.",
         level_note=STD_NOTE + "No axioms.",
         assumptions=[
             "input preconditions of the model (`run` is total, it has no Refused/Crashed outcome): gate ids are instruction indices in "
